@@ -5,7 +5,7 @@ from __future__ import annotations
 import ast
 
 from .. import anchors as A
-from ..astutil import kwarg, mentions_name, unparse
+from ..astutil import kwarg_via, kwarg, mentions_name, unparse
 from ..cfg import CFG, cfg_of
 from ..effects import effects_of
 from ..flow import flow_of
@@ -777,10 +777,11 @@ def retry(ctx: Ctx) -> None:
     ctx.ob(f, f.node, bool(rets), "the thread future factory builds a tenacity Retrying wrapper", sel="retry:present")
     f_outer, f, cfg = f, W, wcfg
     for c in rets:
-        rr = kwarg(c, "reraise")
+        wfl_ = flow_of(repo, f)
+        rr = kwarg_via(wfl_, c, "reraise", cfg.node_of(c))
         ok = isinstance(rr, ast.Constant) and rr.value is True
         ctx.ob(f, c, ok, "Retrying(reraise=True): the task's own error surfaces after the last attempt", sel="retry:reraise")
-        stop = kwarg(c, "stop")
+        stop = kwarg_via(wfl_, c, "stop", cfg.node_of(c))
         ok = False
         got = unparse(stop)
         if isinstance(stop, ast.Call) and any(t.qual == "tenacity.stop_after_attempt" for t in repo.resolve_call(stop, f, f.module)) and stop.args:
@@ -820,7 +821,7 @@ def retry(ctx: Ctx) -> None:
     ex = repo.get(f"{A.RT_LOCAL}.ThreadsExecutor._async_execute_dag")
     efl, ecfg = flow_of(repo, ex), cfg_of(ex)
     for c in repo.calls_to(ex, f.qual):
-        arg = c.args[2] if len(c.args) > 2 else kwarg(c, "retries")
+        arg = c.args[2] if len(c.args) > 2 else kwarg_via(efl, c, "retries", ecfg.node_of(c))
         ok = False
         why = "retries not passed"
         if arg is not None:
